@@ -400,7 +400,8 @@ def specBom (b1 b2 b3 b4 : Nat) : Option Cps :=
   else if b1 = 0xFF ∧ b2 = 0xFE then some (cps "utf_16_le")
   else none
 
-theorem bomDetect_spec (b1 b2 b3 b4 : Nat) : bomDetect b1 b2 b3 b4 = specBom b1 b2 b3 b4 := by
+theorem bomDetect_spec (b1 b2 b3 b4 : Nat) :
+    bomDetect (some b1) (some b2) (some b3) (some b4) = specBom b1 b2 b3 b4 := by
   have e1 : cps "utf_32_be" = [117, 116, 102, 95, 51, 50, 95, 98, 101] := by decide
   have e2 : cps "utf_32_le" = [117, 116, 102, 95, 51, 50, 95, 108, 101] := by decide
   have e3 : cps "utf-8" = [117, 116, 102, 45, 56] := by decide
@@ -443,12 +444,78 @@ def specSniff (txt : Cps) (incl : Bool) : Option Cps :=
       | none => if incl then some (cps "utf-8") else none
   | _ => none
 
+/-- the BOM a document of fewer than four characters can still start with: the three-byte and the two-byte ones -/
+def specBomShort : Cps → Option Cps
+  | [b1, b2, b3] =>
+    if b1 = 0xEF ∧ b2 = 0xBB ∧ b3 = 0xBF then some (cps "utf-8")
+    else if b1 = 0xFE ∧ b2 = 0xFF then some (cps "utf_16_be")
+    else if b1 = 0xFF ∧ b2 = 0xFE then some (cps "utf_16_le")
+    else none
+  | [b1, b2] =>
+    if b1 = 0xFE ∧ b2 = 0xFF then some (cps "utf_16_be")
+    else if b1 = 0xFF ∧ b2 = 0xFE then some (cps "utf_16_le")
+    else none
+  | _ => none
+
+/-- what `detectXMLEncoding` answers for a document of fewer than four characters (since the fix "no longer raises
+ValueError for a document shorter than four characters"): a shorter BOM, else the declaration pattern (which cannot
+match so short a text, `decl_iff`), else the default -/
+def specSniffShort (txt : Cps) (incl : Bool) : Option Cps :=
+  match specBomShort txt with
+  | some n => some n
+  | none =>
+    match declMatch txt with
+    | some e => some (lower e)
+    | none => if incl then some (cps "utf-8") else none
+
+theorem bomDetect_short3 (b1 b2 b3 : Nat) :
+    bomDetect (some b1) (some b2) (some b3) none = specBomShort [b1, b2, b3] := by
+  have e3 : cps "utf-8" = [117, 116, 102, 45, 56] := by decide
+  have e4 : cps "utf_16_be" = [117, 116, 102, 95, 49, 54, 95, 98, 101] := by decide
+  have e5 : cps "utf_16_le" = [117, 116, 102, 95, 49, 54, 95, 108, 101] := by decide
+  unfold bomDetect bomGet specBomShort
+  rw [e3, e4, e5]
+  simp only [C20.bomDict, dictGet]
+  by_cases h3 : b1 = 239 ∧ b2 = 187 ∧ b3 = 191
+  · obtain ⟨rfl, rfl, rfl⟩ := h3; simp
+  · by_cases h4 : b1 = 254 ∧ b2 = 255
+    · obtain ⟨rfl, rfl⟩ := h4; simp
+    · by_cases h5 : b1 = 255 ∧ b2 = 254
+      · obtain ⟨rfl, rfl⟩ := h5; simp
+      · have a3 : ¬ (239 = b1 ∧ 187 = b2 ∧ 191 = b3) := by omega
+        have a4 : ¬ (254 = b1 ∧ 255 = b2) := by omega
+        have a5 : ¬ (255 = b1 ∧ 254 = b2) := by omega
+        simp [h3, h4, h5, a3, a4, a5]
+
+theorem bomDetect_short2 (b1 b2 : Nat) :
+    bomDetect (some b1) (some b2) none none = specBomShort [b1, b2] := by
+  have e4 : cps "utf_16_be" = [117, 116, 102, 95, 49, 54, 95, 98, 101] := by decide
+  have e5 : cps "utf_16_le" = [117, 116, 102, 95, 49, 54, 95, 108, 101] := by decide
+  unfold bomDetect bomGet specBomShort
+  rw [e4, e5]
+  simp only [C20.bomDict, dictGet]
+  by_cases h4 : b1 = 254 ∧ b2 = 255
+  · obtain ⟨rfl, rfl⟩ := h4; simp
+  · by_cases h5 : b1 = 255 ∧ b2 = 254
+    · obtain ⟨rfl, rfl⟩ := h5; simp
+    · have a4 : ¬ (254 = b1 ∧ 255 = b2) := by omega
+      have a5 : ¬ (255 = b1 ∧ 254 = b2) := by omega
+      simp [h4, h5, a4, a5]
+
+theorem bomDetect_short1 (b1 : Nat) : bomDetect (some b1) none none none = none := by
+  unfold bomDetect bomGet
+  simp [C20.bomDict, dictGet]
+
+theorem bomDetect_short0 : bomDetect none none none none = none := by
+  unfold bomDetect bomGet
+  simp [C20.bomDict, dictGet]
+
 theorem detectXMLStream_long (b1 b2 b3 b4 : Nat) (t : Cps) (pos : Nat) (bin incl : Bool) :
     detectXMLStream ⟨b1 :: b2 :: b3 :: b4 :: t, pos, bin⟩ incl =
       ⟨.ok (specSniff (b1 :: b2 :: b3 :: b4 :: t) incl), ⟨b1 :: b2 :: b3 :: b4 :: t, pos, bin⟩⟩ := by
   have e3 : C20.xmlDefault = cps "utf-8" := by decide
   simp only [detectXMLStream, C20.bomRead, C20.declRead, specSniff, bomDetect_spec, e3, List.take_succ_cons,
-    List.take_zero]
+    List.take_zero, List.map_cons, List.map_nil, List.cons_append, List.nil_append]
   cases specBom b1 b2 b3 b4 with
   | some n => rfl
   | none =>
@@ -459,21 +526,54 @@ theorem detectXMLStream_long (b1 b2 b3 b4 : Nat) (t : Cps) (pos : Nat) (bin incl
     | none => cases incl <;> rfl
 
 theorem detectXMLStream_short (fp : Stream) (incl : Bool) (h : fp.content.length < 4) :
-    detectXMLStream fp incl = ⟨.error .valueError, fp⟩ := by
+    detectXMLStream fp incl = ⟨.ok (specSniffShort fp.content incl), fp⟩ := by
+  have e3 : C20.xmlDefault = cps "utf-8" := by decide
   obtain ⟨c, p, b⟩ := fp
   simp only at h
   match c, h with
-  | [], _ => simp [detectXMLStream, C20.bomRead]
-  | [_], _ => simp [detectXMLStream, C20.bomRead]
-  | [_, _], _ => simp [detectXMLStream, C20.bomRead]
-  | [_, _, _], _ => simp [detectXMLStream, C20.bomRead]
+  | [], h =>
+    simp only [detectXMLStream, C20.bomRead, C20.declRead, e3, List.take_nil, List.map_nil, List.nil_append,
+      List.replicate, List.take_succ_cons, List.take_zero, bomDetect_short0, specSniffShort, specBomShort]
+    cases declMatch [] with
+    | some e => rfl
+    | none => cases incl <;> rfl
+  | [b1], h =>
+    simp only [detectXMLStream, C20.bomRead, C20.declRead, e3, List.take_nil, List.map_nil, List.nil_append,
+      List.map_cons, List.cons_append,
+      List.replicate, List.take_succ_cons, List.take_zero, bomDetect_short1, specSniffShort, specBomShort]
+    cases declMatch [b1] with
+    | some e => rfl
+    | none => cases incl <;> rfl
+  | [b1, b2], h =>
+    simp only [detectXMLStream, C20.bomRead, C20.declRead, e3, List.take_nil, List.map_nil, List.nil_append,
+      List.map_cons, List.cons_append,
+      List.replicate, List.take_succ_cons, List.take_zero, bomDetect_short2, specSniffShort]
+    cases specBomShort [b1, b2] with
+    | some n => rfl
+    | none =>
+      simp only []
+      cases declMatch [b1, b2] with
+      | some e => rfl
+      | none => cases incl <;> rfl
+  | [b1, b2, b3], h =>
+    simp only [detectXMLStream, C20.bomRead, C20.declRead, e3, List.take_nil, List.map_nil, List.nil_append,
+      List.map_cons, List.cons_append,
+      List.replicate, List.take_succ_cons, List.take_zero, bomDetect_short3, specSniffShort]
+    cases specBomShort [b1, b2, b3] with
+    | some n => rfl
+    | none =>
+      simp only []
+      cases declMatch [b1, b2, b3] with
+      | some e => rfl
+      | none => cases incl <;> rfl
   | _ :: _ :: _ :: _ :: _, h => simp at h; omega
 
 theorem detectXML_long (b1 b2 b3 b4 : Nat) (t : Cps) (incl : Bool) :
     detectXML (b1 :: b2 :: b3 :: b4 :: t) incl = .ok (specSniff (b1 :: b2 :: b3 :: b4 :: t) incl) := by
   simp [detectXML, detectXMLStream_long]
 
-theorem detectXML_short (txt : Cps) (incl : Bool) (h : txt.length < 4) : detectXML txt incl = .error .valueError := by
+theorem detectXML_short (txt : Cps) (incl : Bool) (h : txt.length < 4) :
+    detectXML txt incl = .ok (specSniffShort txt incl) := by
   simp [detectXML, detectXMLStream_short ⟨txt, 0, false⟩ incl h]
 
 theorem specSniff_short (txt : Cps) (incl : Bool) (h : txt.length < 4) : specSniff txt incl = none := by
@@ -484,12 +584,19 @@ theorem specSniff_short (txt : Cps) (incl : Bool) (h : txt.length < 4) : specSni
   | [_, _, _], _ => rfl
   | _ :: _ :: _ :: _ :: _, h => simp at h; omega
 
-/-- inside `getEncodingInfo` the `ValueError` is caught -/
-theorem sniffCaught_spec (txt : Cps) (incl : Bool) : sniffCaught txt incl = .ok (specSniff txt incl) := by
+/-- what a direct call of the sniffer answers, for every document -/
+def specSniffAll (txt : Cps) (incl : Bool) : Option Cps :=
+  if txt.length < 4 then specSniffShort txt incl else specSniff txt incl
+
+/-- the sniffer never raises, so the `except` of `getEncodingInfo` has nothing to catch -/
+theorem sniffCaught_spec (txt : Cps) (incl : Bool) : sniffCaught txt incl = .ok (specSniffAll txt incl) := by
+  unfold specSniffAll
   by_cases h : txt.length < 4
-  · simp [sniffCaught, detectXML_short txt incl h, specSniff_short txt incl h]
+  · simp [sniffCaught, detectXML_short txt incl h, h]
   · match txt, h with
-    | b1 :: b2 :: b3 :: b4 :: t, _ => simp [sniffCaught, detectXML_long]
+    | b1 :: b2 :: b3 :: b4 :: t, _ =>
+      simp only [sniffCaught, detectXML_long]
+      rw [if_neg (by simp)]
     | [], h => simp at h
     | [_], h => simp at h
     | [_, _], h => simp at h
@@ -577,8 +684,13 @@ theorem xmlOf_spec (c : MClass) (txt : Cps) :
       | .appXml => specSniff txt true
       | .html => specSniff txt false
       | _ => none) := by
-  cases c <;> simp [xmlOf, MClass.code, C20.XML_APPLICATION_TYPE, C20.HTML_TEXT_TYPE, C20.XML_TEXT_TYPE,
-    C20.TEXT_TYPE, C20.TEXT_UTF8, C20.OTHER_TYPE, sniffCaught_spec]
+  by_cases h : txt.length < 4
+  · have h' : ¬ 4 ≤ txt.length := by omega
+    cases c <;> simp [xmlOf, MClass.code, C20.XML_APPLICATION_TYPE, C20.HTML_TEXT_TYPE, C20.XML_TEXT_TYPE,
+      C20.TEXT_TYPE, C20.TEXT_UTF8, C20.OTHER_TYPE, h', specSniff_short txt _ h]
+  · have h' : 4 ≤ txt.length := by omega
+    cases c <;> simp [xmlOf, MClass.code, C20.XML_APPLICATION_TYPE, C20.HTML_TEXT_TYPE, C20.XML_TEXT_TYPE,
+      C20.TEXT_TYPE, C20.TEXT_UTF8, C20.OTHER_TYPE, sniffCaught_spec, specSniffAll, h, h']
 
 theorem metaOf_spec (c : MClass) (m : MetaRaw) :
     metaOf c.code m = (match c with
